@@ -31,7 +31,7 @@ for p in sorted(glob.glob(src + '/benign-*.diff')):
                 viol = re.findall(r'^\s+rule (\S+) .*\n\s+function: (.*)\n\s+instance: (.*)(?:\n\s+site: .*)?\n\s+detail:\s+(.*)', c.stdout, re.M)
                 alarms[pr] = [{'rule': a_, 'fn': b_.strip(), 'instance': i_.strip(), 'detail': d_.strip()[:300]} for a_, b_, i_, d_ in viol] or [{'rule': '?', 'detail': c.stdout[-300:]}]
         results[name] = {'applied': True, 'alarms': alarms}
-        print(name, 'ALARMS: %s' % {k: [(v['rule'], v['instance'][:60]) for v in vs] for k, vs in alarms.items()} if alarms else 'quiet')
+        print(name, 'ALARMS: %s' % {k: [(v.get('rule'), v.get('instance', '')[:60]) for v in vs] for k, vs in alarms.items()} if alarms else 'quiet')
     finally:
         subprocess.run(['git', '-C', REPO, 'checkout', '--', '.'], check=True)
         cur = json.load(open(res_path)) if os.path.exists(res_path) else {}   # merge: several runners may work on different sets
